@@ -215,15 +215,16 @@ CHECKS = {
         "title": "Healing from an archive restores any damaged directory to the signed build",
         "level": "exploration",
         "technique": "rapid property-based testing with generated fault sequences and schedule perturbation (GOMAXPROCS, consumer-callback jitter, repetition); independent post-heal observer",
-        "level_text": ("C05's damage generator plus 'directory empty' and 'directory missing'; archive = archiver.CompressZip of the pristine build. "
+        "level_text": ("C05's damage generator plus 'directory empty' and 'directory missing'; archive = archiver.CompressZip of the pristine build (stored entries) or, "
+                       "in one third of the cases, an ordinary deflate-compressed zip of it written by the standard library, whose readers return their last bytes together with io.EOF. "
                        "Validate{HealPath} must return nil within the watchdog; afterwards an independent observer must find every signed entry with "
                        "the right kind/bytes/destination (extras allowed) and AssertValid must pass. An already valid directory must be untouched "
                        "(strong snapshot) and TotalHealed()==0. GOMAXPROCS in {1,2,4,16}, sleeps/yields injected through the Consumer callbacks, 2 repetitions."),
         "level_note": "interleavings of validator, wound channel and healer are sampled, not enumerated.",
         "rule": ("rapid draws (tree, damage sequence, GOMAXPROCS, jitter bytes). Non-trivial: >=1 file healed and >=1 directory or symlink wound. "
                  "Distinct: SHA-1 of the spec."),
-        "assumptions": ["the healing archive is the zip of the pristine build, as in wharf's scenario tests"],
-        "required_classes": {"quick": ["dir:already-valid", "dir:healed", "damage:hides-subtree", "damage:kind-swap:d->link", "damage:kind-swap:d->file"],
+        "assumptions": ["the healing archive is a zip of the pristine build (wharf's own stored zip, as in its scenario tests, or a standard deflate zip)"],
+        "required_classes": {"quick": ["dir:already-valid", "dir:healed", "archive:deflate-zip", "damage:hides-subtree", "damage:kind-swap:d->link", "damage:kind-swap:d->file"],
                              "thorough": ["dir:already-valid", "dir:healed", "damage:hides-subtree", "damage:kind-swap:d->link", "damage:kind-swap:d->file", "damage:whole-directory-delete", "damage:whole-directory-empty"]},
         "stages": [rapid("heal", "TestProp", 9600, 192000, qs=16, ts=16, qt=600, tt=5400, schedule_dependent=True)],
     },
